@@ -56,7 +56,7 @@ func c04Ops() []Op {
 		ops = append(ops, Op{Kind: "start", Time: t})
 	}
 	ops = append(ops,
-		Op{Kind: "start", Time: "8:30", HasSum: true, Summary: "text #s"},
+		Op{Kind: "start", Time: "8:30", HasSum: true, Summary: "\\o/ text #s"}, // (a summary that begins with a backslash)
 		Op{Kind: "start", Time: "8:30", HasSum: true, Summary: "two\nlines"},
 		Op{Kind: "start", Time: "12:00", Resume: true},
 		Op{Kind: "start", Time: "12:00", ResumeNth: 1},
